@@ -112,6 +112,7 @@ def scenarios(tier: str) -> List[Any]:
     for engine in ("asyncio", "trio"):
         out.append((engine, "upload", 255, (), "padded"))
         out.append((engine, "upload", 0, (), "plain"))
+        out.append((engine, "upload", 0, (), "late"))  # the response completes at once, the client keeps uploading
     for engine in ("asyncio", "trio"):
         out.append((engine, 0, 16384, ("empty",), "none"))
         out.append((engine, 0, 16384, ("empty", "three"), "none"))
@@ -155,14 +156,23 @@ def sids_of(ss: tuple) -> List[int]:
 
 
 def build_upload(params: Any) -> tuple:
-    engine, _, pad, _, _ = params
+    engine, _, pad, _, mode = params
     n = UPLOAD_FRAMES if pad else 70
     size = 1 if pad else 1000
     client = [("cmd", 0, "preface"), ("cmd", 0, "headers", 1, h2_request_headers(b"POST", b"/up"), False)]
+    if mode == "late":
+        # /up is answered on its head alone (the stream is forgotten by the server), the client legally goes on
+        # uploading 70 000 B on it; the credit for those bytes must still come back or stream 3 can never upload
+        client.append(("wait_status", 0, 1))
     for i in range(n):
         client.append(("cmd", 0, "datap", 1, bytes([48 + i % 10]) * size, pad, i == n - 1))
     apps = {"http": [("recv_body",), ("send", {"type": "http.response.start", "status": 200, "headers": []}),
                      ("send", {"type": "http.response.body", "body": b"done", "more_body": False})]}
+    if mode == "late":
+        apps["http:/up"] = apps["http"][1:]
+        client.append(("cmd", 0, "headers", 3, h2_request_headers(b"POST", b"/second"), False))
+        for i in range(5):
+            client.append(("cmd", 0, "datap", 3, b"s" * 1000, 0, i == 4))
     conn = {"carrier": "h2", "tls": True, "alpn": "h2", "auto_ack": True}
     sc = {"level": "conn", "conns": {0: conn}, "client_factory": make_client, "apps": apps,
           "config": {"keep_alive_timeout": 5}, "sources": [("client", client)], "midflight": False, "sigs": False}
@@ -170,12 +180,26 @@ def build_upload(params: Any) -> tuple:
 
 
 def oracle_upload(w: Any, params: Any) -> List[dict]:
-    engine, _, pad, _, _ = params
+    engine, _, pad, _, mode = params
     out: List[dict] = []
     n = UPLOAD_FRAMES if pad else 70
     size = 1 if pad else 1000
     want = b"".join(bytes([48 + i % 10]) * size for i in range(n))
     rec = w.conns[0]
+    if mode == "late":
+        sent = sum(1 for _, e in w.driver.fired if e[0] == "cmd" and e[2] == "datap")
+        second = next((i for i in w.instances if i.scope.get("path") == "/second"), None)
+        got2 = b"" if second is None else b"".join(m.get("body", b"") for m in second.delivered() if m["type"] == "http.request")
+        st3 = rec.client.h2.streams.get(3)
+        if rec.client.h2.error is not None:
+            out.append(V("client-rejects-frame", "upload:late", rec.client.h2.error))
+        if sent < n + 5:
+            out.append(V("upload-stalled", "upload:late", f"client could send only {sent} of {n + 5} DATA frames: the credit for "
+                                                          f"data on the already answered stream never came back"))
+        elif got2 != b"s" * 5000 or st3 is None or not st3["ended"]:
+            out.append(V("sibling-blocked", "upload:late", f"second upload: app got {len(got2)} of 5000 bytes, stream 3 {st3 and st3['ended']}"))
+        out.extend(internal_errors(w))
+        return out
     inst = w.instances[0] if w.instances else None
     got = b"" if inst is None else b"".join(m.get("body", b"") for m in inst.delivered() if m["type"] == "http.request")
     sent = sum(1 for _, e in w.driver.fired if e[0] == "cmd" and e[2] == "datap")
